@@ -88,6 +88,9 @@ def corr_combinations(rng, drv, n_cases=30) -> Result:
         for k in range(n_cases):
             order = (2, 3, 4)[k % 3]
             c = abstract_cell(rng, max_N=(8, 6, 4)[order - 2], n_shells=4)
+            if 3 * c.N < order:
+                res.count("skipped_fewer_entries_than_order")
+                continue
             cutoff = rng.randint(1, 5)      # equals some distances exactly -> strictness matters
             use_indep = rng.random() < 0.7
             fc = fake_cutoff(c, cutoff)
